@@ -14,6 +14,8 @@ of their UTF-8 bytes (`-` = empty).
 * `wit <file> <variant>` → `lv=<key:witness:authWitness:targetable:unambiguous,…> cls=<key+key|key…> checks=<bits> c04=<ok|exempt:tag|broken>`
 * `match <file> <variant> <key> <subject>` → `<levelMatches> <find span of the level pattern>`
 * `jfind <file> <variant> <key,key,…> <subject>` → find span of the joined pattern in that order
+* `onx <file> <variant> <user default|~>` → `open=<actions> close=<actions>` of the network on-X lists run against a
+  driver whose default desired level is the user's (`~`: the definition's): `a<level>` acquire, `c<cmd>`, `w<input>`, `r`
 * `graph <key/name/previous,…>` → `graph=<buildPrivGraph does not panic> tree=<singleTree> keyname=<keyEqName>`
 * `merge <9 base fields> <9 variant fields>` → the nine merged fields + ` kind= err=` (sections are
   opaque tokens; only presence matters to `mergeVariant`)
@@ -101,6 +103,21 @@ def handleC17 : List String → String
     match lookupHex hf hv, (parseList order).mapM unhexS, fromHex hs with
     | some l, some ks, some s => spanS (find (joinedInOrder l.d ks) s)
     | _, _, _ => "bad-op"
+  | ["onx", hf, hv, hu] =>
+    match lookupHex hf hv, (if hu == "~" then some none else (unhexS hu).map some) with
+    | some l, some user =>
+      let r := runtimeDefault l.d user
+      let showA : OnxAction → String
+        | .write i => "w" ++ hexS i
+        | .ret => "r"
+        | .acquire t => "a" ++ hexS t
+        | .sendCommand c => "c" ++ hexS c
+        | .badValue => "e"
+        | .skip => "s"
+        | .panic => "p"
+      "open=" ++ showList ((runNetworkOnX r (l.d.netOnOpen.getD [])).map showA)
+        ++ " close=" ++ showList ((runNetworkOnX r (l.d.netOnClose.getD [])).map showA)
+    | _, _ => "bad-op"
   | ["graph", lv] =>
     let ls : Option (List Level) := (parseList lv).mapM fun e =>
       match (e.splitOn "/").mapM unhexS with
